@@ -62,7 +62,7 @@ def base_document_cif1(rng, n):
             t = ' '.join(rng.choice(words) for _ in range(rng.randint(2, 6)))
             entries.append(('item', nm, ('char', t, True)))
         elif r < 0.75:
-            t = '\n'.join(' '.join(rng.choice(words + ['plain', ';semi']) for _ in range(rng.randint(1, 5))) for _ in range(rng.randint(2, 4)))
+            t = '\n'.join(' '.join(rng.choice(words + ['plain', 'se;mi']) for _ in range(rng.randint(1, 5))) for _ in range(rng.randint(2, 4)))
             entries.append(('item', nm, ('char', GC.clean_text(t, 1), True)))
         elif r < 0.9:
             entries.append(('item', nm, GC.rand_doc_value(rng, 1, depth=0, maxlen=20)))
